@@ -41,6 +41,7 @@ type flushEvent struct {
 	Kind     string   `json:"kind"`
 	Sched    []string `json:"sched"`
 	Dirty    int      `json:"dirty"`
+	NoCache  bool     `json:"nocache"` // foreign case without a cache in common
 	Foreign  bool     `json:"foreign"`
 }
 
@@ -621,13 +622,18 @@ func foreignCacheCase(id int, seed int64, out *json.Encoder) {
 	flushRunID++
 	id = flushRunID
 	rng := rand.New(rand.NewSource(seed))
-	cache := mast.NewNodeCache(4096)
+	var cache mast.NodeCache = mast.NewNodeCache(4096)
 	var p1, p2 mast.Persist
+	nocache := false
 	if rng.Intn(2) == 0 {
 		p1, p2 = newRecStore(fmt.Sprintf("first-%d", id)), newRecStore(fmt.Sprintf("second-%d", id))
 	} else {
 		fs := &fakeS3{obj: map[string][]byte{}}
-		a := s3p.NewPersist(fs, "http://endpoint", "bucket", "a/")
+		// two stores in one bucket, sometimes one of them without a prefix, sometimes without any cache in common
+		a := s3p.NewPersist(fs, "http://endpoint", "bucket", []string{"a/", ""}[rng.Intn(2)])
+		if rng.Intn(2) == 0 {
+			cache, nocache = nil, true
+		}
 		b := s3p.NewPersist(fs, "http://endpoint", "bucket", "b/")
 		p1, p2 = &a, &b
 	}
@@ -654,7 +660,7 @@ func foreignCacheCase(id int, seed int64, out *json.Encoder) {
 		panic(err)
 	}
 	out.Encode(flushEvent{Op: "fbegin", ID: id, Kind: "foreign", Sched: []string{}})
-	e := flushEvent{Op: "ret", ID: id, Attempt: 1, Foreign: true, Sched: []string{}, Usable: "ok", Reload: "ok"}
+	e := flushEvent{Op: "ret", ID: id, Attempt: 1, Foreign: true, NoCache: nocache, Sched: []string{}, Usable: "ok", Reload: "ok"}
 	var root *mast.Root
 	e.Res, e.Msg = guard(func() error {
 		var err error
